@@ -140,3 +140,15 @@ Theorem C04_request_handlers_are_the_sources : forall k m c vr s,
   HandlerEq.same_run (Node.run (GenHandlers.gen_recordAcceptedValidationEvents c vr) s) (Node.run (Node.record_accepted c vr) s).
 Proof. exact HandlerEq.request_handlers_are_source. Qed.
 Print Assumptions C04_request_handlers_are_the_sources.
+
+(* the entry points for messages that arrive over the network -- the channel id is built from the authenticated
+   sender, the manager's handler runs, the reply goes out over the network or (an accepted push) on a newly
+   opened transport channel, ErrPause pauses the transport and any other error closes it; a restart-existing
+   request is honoured only by the channel's initiator for its counterparty on a live channel -- run, for every
+   interpreter state, like the programs regenerated from impl/receiver.go on every run *)
+Theorem C04_network_entry_points_are_the_sources : forall from m s,
+  HandlerEq.same_run (Node.run (GenHandlers.gen_receiveRequest (Node.n_self (Node.s_node s)) from m) s) (Node.run (Node.recv_request from m) s) /\
+  HandlerEq.same_run (Node.run (GenHandlers.gen_receiveResponse (Node.n_self (Node.s_node s)) from m) s) (Node.run (Node.recv_response from m) s) /\
+  snd (Node.run (GenHandlers.gen_ReceiveRestartExistingChannelRequest (Node.n_self (Node.s_node s)) from m) s) = snd (Node.run (Node.recv_restart_existing from m) s).
+Proof. exact HandlerEq.receiver_handlers_are_source. Qed.
+Print Assumptions C04_network_entry_points_are_the_sources.
